@@ -146,19 +146,48 @@ def build(spec, hooks=True):
             u_ = units_cycle[len(b.pt.time) % len(units_cycle)]    # a load function whose branches return different torque units (keyed by the instant, so that a rerun sees the same units)
             return Torque(load_value(load, t, p, w) / SI.FACT['Torque'][u_], u_)
         return Torque(load_value(load, t, p, w) / fac, lu)
-    b.last.external_torque = external_torque
-    b.pt = G_.Powertrain(motor=b.motor)
-    apply_ic(b)
-    b.solver = G_.Solver(powertrain=b.pt)
-    b.control = None
-    b.rules = []
-    if spec.get('rules'):
-        b.control = G_.mc.PWMControl(powertrain=b.pt)
-        for r in spec['rules']:
-            rule = make_rule(b, r)
-            b.rules.append(rule)
-            b.control.add_rule(RecordingRule(rule, b) if hooks else rule)
-    b.stop = make_stop(b, spec['stop'], hooks) if spec.get('stop') else None
+    # The order of the public calls a user makes is free wherever the API allows it; `spec['order']` (an integer) selects one
+    # of the legal orders: load callback and initial conditions before or after assembling the powertrain; solver, control
+    # and stop condition in any order afterwards.
+    order = int(spec.get('order', 0))
+
+    def set_load():
+        b.last.external_torque = external_torque
+
+    def set_ic():
+        apply_ic(b)
+
+    def mk_solver():
+        b.solver = G_.Solver(powertrain=b.pt)
+
+    def mk_control():
+        b.control = None
+        b.rules = []
+        if spec.get('rules'):
+            b.control = G_.mc.PWMControl(powertrain=b.pt)
+            for r in spec['rules']:
+                rule = make_rule(b, r)
+                b.rules.append(rule)
+                b.control.add_rule(RecordingRule(rule, b) if hooks else rule)
+
+    def mk_stop():
+        b.stop = make_stop(b, spec['stop'], hooks) if spec.get('stop') else None
+    pre = [set_load, set_ic]
+    if order & 1:
+        pre.reverse()
+    post = [mk_solver, mk_control, mk_stop]
+    post = [post[j] for j in [(0, 1, 2), (1, 0, 2), (2, 1, 0), (1, 2, 0), (0, 2, 1), (2, 0, 1)][(order >> 2) % 6]]
+    if order & 2:
+        # everything that only needs the elements comes after the powertrain has been assembled
+        b.pt = G_.Powertrain(motor=b.motor)
+        for f_ in pre:
+            f_()
+    else:
+        for f_ in pre:
+            f_()
+        b.pt = G_.Powertrain(motor=b.motor)
+    for f_ in post:
+        f_()
     b.is_probe = False
     if b.stop is None and spec.get('probe'):
         b.stop = make_probe(b)
